@@ -59,4 +59,17 @@ example : (immRun ImmState.init [.beginStore 1 10, .beginStore 2 20, .writePart 
 example : (mutRun MutState.init [.beginStore 10, .finishCopy 10, .writeHash, .beginStore 20, .overwrite 20 4]).bind
             (mutFetch (fun c => match c with | .complete v => v | .trunc v k => 1000 + v + k)) = none := by decide
 
+
+/-- "a completed Store is what the next Fetch returns", mutable cache: from any state of the entry and after
+    any earlier events, once the copy of version `v` has finished and the side file has been rewritten, Fetch
+    installs exactly the complete archive of `v` -/
+theorem C16_mutable_store_then_fetch (hashOf : Content → Nat) (pre : List MutEv) (s s' : MutState) (v : Nat)
+    (h : mutRun s (pre ++ [.finishCopy v, .writeHash]) = some s') :
+    mutFetch hashOf s' = some (.complete v) :=
+  mut_store_then_fetch hashOf pre s s' v h
+
+/-- non-vacuity: a store interrupted mid-copy followed by a complete one -/
+example : (mutRun MutState.init ([.beginStore 1, .overwrite 1 3, .beginStore 2, .overwrite 2 1] ++ [.finishCopy 2, .writeHash])).isSome = true := by
+  decide
+
 end GoUtils.Props.C16
